@@ -175,6 +175,14 @@ def compare_tar_listing(lst, view, s, who):
         if gt == "hlink":
             if s.get("no_hard_links"):
                 raise Violation("%s: %r is a hard link although --no-hard-links was given" % (who, name), None, sig="s2t-hl")
+            # the header of a link member describes the same inode: a reader that applies it (Python's extractall does: chmod, chown,
+            # utime on the link) must end up with the attributes the image has
+            for f in ("mode", "uid", "gid", "mtime"):
+                if f == "mode" and n["type"] == "slink":
+                    continue
+                if g[f] != n[f]:
+                    raise Violation("%s: hard link member %r carries %s=%s in its header, the inode in the image has %s" % (
+                        who, name, f, ("%o" % g[f]) if f == "mode" else g[f], ("%o" % n[f]) if f == "mode" else n[f]), None, sig="s2t-hl-meta")
             continue
         if gt != n["type"]:
             raise Violation("%s: %r has type %s, image says %s" % (who, name, gt, n["type"]), None, sig="s2t-type")
